@@ -155,3 +155,27 @@ def csd(g):
             p[a] = b
             c -= 1
     return len(g['edges']) - n + c
+
+
+def petals(p, heavy=1000, chord=2, plen=1):
+    """Adversarial family for the (2k-1) bound: hub c, sink t joined by one very heavy edge, p petals
+    c - s_i - (plen inner vertices) - t of unit edges, each with a light chord s_i - t.  Any closing path that
+    detours over the heavy edge costs `heavy` once per chord, so a wrong (non-shortest) choice breaks the bound."""
+    es = [(0, 1, heavy)]
+    n = 2
+    for _ in range(p):
+        s_i = n; n += 1
+        es.append((0, s_i, 1))
+        prev = s_i
+        for _ in range(plen):
+            es.append((prev, n, 1)); prev = n; n += 1
+        es.append((prev, 1, 1))
+        es.append((s_i, 1, chord))
+    return {'n': n, 'edges': es}
+
+
+def heavy_spiked(rng, g, count, heavy):
+    es = list(g['edges'])
+    for i in rng.sample(range(len(es)), min(count, len(es))):
+        es[i] = (es[i][0], es[i][1], heavy)
+    return {'n': g['n'], 'edges': es}
